@@ -171,6 +171,15 @@ TWINS = [
     ('rpy-xyz-sing-asin', 'C05', 'base/transforms3d.py', '            rpy[1] = math.asin(R[0, 2])', '            rpy[1] = -math.asin(R[0, 2])', 'R19', 'tr2rpy'),
     ('eul-psi-args', 'C05', 'base/transforms3d.py', '        cp = math.cos(eul[0])\n        eul[1] = math.atan2(cp * R[0, 2] + sp * R[1, 2], R[2, 2])\n        eul[2] = math.atan2(-sp * R[0, 0] + cp * R[1, 0], -sp * R[0, 1] + cp * R[1, 1])', '        cp = math.cos(eul[0])\n        eul[1] = math.atan2(cp * R[0, 2] + sp * R[1, 2], R[2, 2])\n        eul[2] = math.atan2(-sp * R[0, 0] + cp * R[1, 0], sp * R[0, 1] + cp * R[1, 1])', 'R19', 'tr2eul'),
     ('eul-theta-neg', 'C05', 'base/transforms3d.py', '        cp = math.cos(eul[0])\n        eul[1] = math.atan2(cp * R[0, 2] + sp * R[1, 2], R[2, 2])', '        cp = math.cos(eul[0])\n        eul[1] = math.atan2(cp * R[0, 2] - sp * R[1, 2], R[2, 2])', 'R19', 'tr2eul'),
+    # ---- rules added after seeded round c
+    ('eq-identity-shortcut', 'C09', 'super_pose.py', "        assert type(left) == type(right), 'operands to == are of different types'\n        return left._op2(right, lambda x, y: np.allclose(x, y))", "        assert type(left) == type(right), 'operands to == are of different types'\n        if left is right:\n            return True\n        return left._op2(right, lambda x, y: np.allclose(x, y))", 'R8h', '__eq__'),
+    ('uqinterp-shortest-dest-only', 'C11', 'quaternion.py', '        if shortest:\n            if dot < 0:\n                q1 = - q1\n                dot = -dot\n\n        dot = np.clip(dot, -1, 1)  # Clip within domain of acos()', '        if dest is not None and shortest:\n            if dot < 0:\n                q1 = - q1\n                dot = -dot\n\n        dot = np.clip(dot, -1, 1)  # Clip within domain of acos()', 'R14', 'UnitQuaternion.interp'),
+    ('trinterp-so3-t2r', 'C11', 'base/transforms3d.py', '            q0 = base.r2q(end)\n            qr = base.slerp(base.eye(), q0, s)', '            q0 = base.r2q(base.t2r(end))\n            qr = base.slerp(base.eye(), q0, s)', 'R20', 'trinterp'),
+    ('rt2tr-no-length-test', 'C15', 'base/transformsNd.py', '    if R.shape[0] != t.shape[0]:\n        raise ValueError("R and t must have the same number of rows")\n', '', 'R10l', 'rt2tr'),
+    ('trinv-dtype-other-arg', 'C13', 'base/transforms3d.py', '        Td = trinv(T0) @ T1\n', '        Td = np.zeros((4, 4), dtype=T0.dtype)\n        Td[:, :] = trinv(T0) @ T1\n', 'R11a', 'tr2delta'),
+    ('det-closed-form-typo', 'C16', 'base/transformsNd.py', "    if m.dtype.kind == 'O':\n        return Matrix(m).det()", "    if m.dtype.kind == 'O':\n        if m.shape == (2, 2):\n            return m[0, 0] * m[1, 1] + m[0, 1] * m[1, 0]\n        return Matrix(m).det()", 'R16', 'det'),
+    ('se3-inv-memo', 'C06', 'pose3d.py', '        if len(self) == 1:\n            return SE3(base.trinv(self.A), check=False)', '        if len(self) == 1:\n            if getattr(self, "_inv", None) is None:\n                self._inv = SE3(base.trinv(self.A), check=False)\n            return self._inv', 'R9', 'SE3.inv'),
+    ('se3-Ad-memo', 'C20', 'pose3d.py', '        return base.adjoint(self.A)', '        if getattr(self, "_Ad", None) is None:\n            self._Ad = base.adjoint(self.A)\n        return self._Ad', 'R9', 'SE3.Ad'),
 ]
 
 
